@@ -465,6 +465,12 @@ func run[K comparable](r *engine.Rec, c *cfg[K]) {
 			return viol("key index and order diverge after "+op.K, why+fmt.Sprintf("\nbefore %v after %v", m, got))
 		}
 		// API-level coherence
+		{
+			type AL = col.AssociationLike[K, string]
+			if why := common.TwoLiveIterators[AL](func() age.IteratorLike[AL] { return cat.GetIterator() }, cat.AsArray(), true); why != "" {
+				return viol("two iterators over one catalog influence each other", why)
+			}
+		}
 		keys := cat.GetKeys().AsArray()
 		if len(keys) != len(e.m) || cat.GetSize() != len(e.m) || cat.IsEmpty() != (len(e.m) == 0) {
 			return viol("GetKeys/size disagree with the array view after "+op.K, fmt.Sprint(keys, e.m))
@@ -533,6 +539,7 @@ func units(tier string) []engine.Unit {
 		x, y := 5, 5
 		run(r, &cfg[any]{name: "Catalog[any] holding pointer keys", keys: []any{&x, &y, "k", 1}, maxSize: 9})
 	})
+	add("size-ladder", catalogLadder)
 	return us
 }
 
